@@ -18,7 +18,7 @@ EXHAUSTIVE = True
 RULE = (
     "every grid shape with extents 1..N per axis (N per dimension in 'bounds') x voxel-size "
     "form {float, list}; plus grids derived from images of every such shape (quick: 3-D up "
-    "to 3). A case is non-trivial when the grid has at least one face; distinct = distinct "
+    "to 3; scalar, vector, series and vector-series images); every grid is re-inspected after FV operators and a distance solver were built on it. A case is non-trivial when the grid has at least one face; distinct = distinct "
     "(kind, shape, voxel form)."
 )
 ASSUMPTIONS = [
@@ -45,6 +45,10 @@ def cases(tier):
             out.append({"kind": "grid", "shape": list(s), "vs": "list"})
             if tier == "thorough" or max(s) <= (12, 5, 3)[dim - 1]:
                 out.append({"kind": "image", "shape": list(s)})
+                # images with a component axis and / or a time axis: the grid is that of the SPATIAL shape
+                for payload in ("vector", "series", "vector-series"):
+                    if tier == "thorough" or sum(s) % 3 == {"vector": 0, "series": 1, "vector-series": 2}[payload]:
+                        out.append({"kind": "image", "shape": list(s), "payload": payload})
     out.sort(key=lambda c: (sum(c["shape"]), len(c["shape"]), c["kind"]))
     return out
 
@@ -73,7 +77,10 @@ def run_case(case, r):
         vs_ref = {"float": np.ones(dim), "scalar": np.full(dim, 0.5), "list": np.array(VS[dim])}[case["vs"]]
     else:
         dims = [0.5 * s for s in shape]  # voxel size 0.5 on every axis, exact
-        img = darsia.Image(np.zeros(shape), dimensions=dims, space_dim=dim)
+        payload = case.get("payload", "scalar")
+        full = shape + ((2,) if "series" in payload else ()) + ((3,) if "vector" in payload else ())
+        kw = {"series": True, "time": [0.0, 1.0]} if "series" in payload else {}
+        img = darsia.Image(np.zeros(full), dimensions=dims, space_dim=dim, scalar="vector" not in payload, **kw)
         g = darsia.generate_grid(img)
         vs_ref = 0.5 * np.ones(dim)
         r.check(tuple(g.shape) == shape, cell("generate_grid"), "grid shape equals image num_voxels", got=list(g.shape))
@@ -186,6 +193,29 @@ def run_case(case, r):
                     okc = False
                     break
         r.check(okc, cell("corners"), "recorded corners are the reference-cell corners on that face (upper side of the lower cell, lower side of the upper cell)", axis=d)
+    # --- the grid is a value other objects are built ON: assembling finite-volume operators and a
+    # Wasserstein solver on it must leave every table as it was verified above
+    from mc.canon import digest
+
+    before = digest(vars(g))
+    before_each = {k: digest(v) for k, v in vars(g).items()}
+    try:
+        darsia.FVDivergence(g), darsia.FVMass(g, "cells"), darsia.FVMass(g, "faces")
+        if dim >= 2 and nf > 0:
+            darsia.FVTangentialFaceReconstruction(g), darsia.FVFullFaceReconstruction(g)
+        if nf > 0:
+            darsia.face_to_cell(g, np.ones(nf))
+            darsia.cell_to_face_average(g, np.ones(shape), "harmonic")
+        if ncell >= 2:
+            import darsia.measure.wasserstein as W
+
+            W.WassersteinDistanceNewton(g, None, {"mobility_mode": W.MobilityMode.SUBCELL_BASED})
+    except Exception as e:  # noqa: BLE001  (usability of these consumers is C04/C06's business)
+        r.count("consumer_raised")
+    after = digest(vars(g))
+    r.check(after == before, cell("unchanged-by-consumers"), "numbering and connectivity tables are unchanged after finite-volume operators and a distance solver were built on the grid", changed=[k for k, v in vars(g).items() if before_each.get(k) != digest(v)] or None, reverse_connectivity_min=int(np.min(np.asarray(g.reverse_connectivity))) if ncell else None)
+    rc_after = np.asarray(g.reverse_connectivity)
+    r.check(rc_after.shape == (dim, ncell, 2) and bool(np.all((rc_after >= -1) & (rc_after < max(nf, 1)))), cell("unchanged-by-consumers"), "'no face' is still -1 and every recorded face number exists", max=int(rc_after.max()) if rc_after.size else None)
     # reference corners themselves: all 2^dim distinct 0/1 vectors
     cc = np.asarray(g.cell_corners)
     r.check(
